@@ -158,6 +158,21 @@ macro_rules! impl_policy {
                 inner.costs.clear();
             }
 
+            #[cfg(transparencies_stretto_verif)]
+            pub(crate) fn verif_costs(&self) -> (Vec<(u64, i64)>, i64, i64) {
+                let inner = self.inner.lock();
+                (
+                    inner.costs.key_costs.iter().map(|(k, c)| (*k, *c)).collect(),
+                    inner.costs.used,
+                    inner.costs.get_max_cost(),
+                )
+            }
+
+            #[cfg(transparencies_stretto_verif)]
+            pub(crate) fn verif_estimate(&self, k: u64) -> i64 {
+                self.inner.lock().admit.estimate(k)
+            }
+
             #[inline]
             pub fn max_cost(&self) -> i64 {
                 let inner = self.inner.lock();
